@@ -395,8 +395,8 @@ def run(ctx):
     run_contents(ctx)
 
 # ----------------------------------------------------- data content is the caller's business
-CONTENTS = ["nan", "inf", "equals_fill", "zeros", "nan_edges", "all_nan"]
-FILLS = [FILL, 0.0, float("nan"), 1e30]
+CONTENTS = ["nan", "inf", "equals_fill", "zeros", "nan_edges", "all_nan", "int16", "bool", "int16"]
+FILLS = [FILL, 0.0, float("nan"), 1e30, 0.5, -1.5]
 
 
 def _same(a, b):
@@ -405,6 +405,11 @@ def _same(a, b):
 
 def _content(arr, content):
     """Give some ORIGINAL samples values that a fill / missing-data marker could be confused with."""
+    if content in ("int16", "bool"):
+        # integer / boolean samples (raw PCM, masks): a fill value such data cannot hold is still the fill value
+        d = np.array(arr.data)
+        d = (d.astype(np.int64) % 30000).astype(np.int16) if content == "int16" else (d.astype(np.int64) % 2 == 0)
+        return arr.copy(data=d)
     d = np.array(arr.data, dtype=float)
     n = d.shape[0]
     ks = sorted({0, n // 2, n - 1}) if content != "nan_edges" else sorted({0, n - 1})
